@@ -8,6 +8,8 @@ from ..gen.world import World
 from ..mon import exec_mon, result_mon, sched
 from ..ref import refexec
 
+THOROUGH_SCALE = 8.0   # 16 shards; see DESIGN.md section 7
+
 RULE = (
     "request texts (valid operations, every kind of prefix of them, character / token mutants, "
     "documents with unknown fields / arguments / fragments, hostile lexical fragments) x variable "
